@@ -262,6 +262,21 @@ struct DC13
 	static void expect(ArgPack & p, int k, int eid, int) { p.push(fpOf(KS(k)) * 31 + eid); }
 };
 
+// exclude-event form, getEvent policy takes a by-value prototype argument BY VALUE (forwarding into it would consume the listeners' argument)
+struct PolGetEventByValueExcl { static int getEvent(int id, TPayload, int) { return id; } typedef eventpp::ArgumentPassingExcludeEvent ArgumentPassingMode; };
+struct DC14
+{
+	typedef eventpp::EventDispatcher<int, void(TPayload, int), PolGetEventByValueExcl> D;
+	static const char * name() { return "ED<int,void(TPayload,int)> exclude-event form, getEvent takes the by-value payload by value"; }
+	static int key(int k) { return KI(k); }
+	static void dispatch(D & d, int k, int eid, int val, uint32_t form) {
+		if(form == 0) { int kk = KI(k); TPayload p(eid); int v = val; d.dispatch(kk, p, v); }
+		else if(form == 1) { const int kk = KI(k); const TPayload p(eid); const int v = val; d.dispatch(kk, p, v); }
+		else d.dispatch(KI(k), TPayload(eid), int(val));
+	}
+	static void expect(ArgPack & p, int, int eid, int val) { p.push(eid); p.push(val); }
+};
+
 // ------------------------------------------------------------------ world
 struct DMode { int pAct, maxDepth, minOps, maxOps; bool structural; int nd; };
 static DMode dmodeOf(const std::string & m)
@@ -582,9 +597,9 @@ template <bool Enabled, typename Cfg>
 static typename std::enable_if<! Enabled>::type runCfgIf(const DMode &, Rng &, uint64_t, int) {}
 static void skipCase() { --ctx().casesRun; }
 
-enum { NCFG = 14 };
+enum { NCFG = 15 };
 #ifndef VF_CFG_MASK
-#define VF_CFG_MASK 0xefff
+#define VF_CFG_MASK 0x7fff
 #endif
 // C20: the same program under a family that differs only in policies (threading, map kind, callback storage, argument passing mode)
 #if (VF_CFG_MASK >> 15) & 1
@@ -663,7 +678,7 @@ static void runCase(uint64_t caseNo, Rng & rng)
 	const int cfg = only >= 0 ? (int)only : (int)(caseNo % NCFG);
 #define VF_CFG(n) case n: if((VF_CFG_MASK >> n) & 1) { runCfgIf<((VF_CFG_MASK >> n) & 1) != 0, DC##n>(mode, rng, caseNo, n); } else { skipCase(); } break;
 	switch(cfg) {
-	VF_CFG(0) VF_CFG(1) VF_CFG(2) VF_CFG(3) VF_CFG(4) VF_CFG(5) VF_CFG(6) VF_CFG(7) VF_CFG(8) VF_CFG(9) VF_CFG(10) VF_CFG(11) VF_CFG(12) VF_CFG(13)
+	VF_CFG(0) VF_CFG(1) VF_CFG(2) VF_CFG(3) VF_CFG(4) VF_CFG(5) VF_CFG(6) VF_CFG(7) VF_CFG(8) VF_CFG(9) VF_CFG(10) VF_CFG(11) VF_CFG(12) VF_CFG(13) VF_CFG(14)
 	default: skipCase(); break;
 	}
 }
